@@ -702,6 +702,26 @@ def d2_definitions(ctx, idx, env):
         inner = expr
         if isinstance(inner, ast.Call) and nf.callee_name(inner) in ('MathArray', 'array') and len(inner.args) == 1:
             inner = inner.args[0]
+        if isinstance(inner, (ast.ListComp, ast.GeneratorExp)) and len(inner.generators) == 1 and not inner.generators[0].ifs:
+            # a comprehension over a literal table of index pairs: unrolled into its components
+            g_ = inner.generators[0]
+            it = lib.inline_locals(g_.iter, fi.node)
+            if isinstance(it, (ast.Tuple, ast.List)) and all(isinstance(e_, (ast.Tuple, ast.List, ast.Constant)) for e_ in it.elts):
+                elts = []
+                for e_ in it.elts:
+                    if isinstance(g_.target, ast.Name):
+                        env_ = {g_.target.id: e_}
+                    elif isinstance(g_.target, (ast.Tuple, ast.List)) and isinstance(e_, (ast.Tuple, ast.List)) \
+                            and len(g_.target.elts) == len(e_.elts) and all(isinstance(t_, ast.Name) for t_ in g_.target.elts):
+                        env_ = {t_.id: v_ for t_, v_ in zip(g_.target.elts, e_.elts)}
+                    else:
+                        env_ = None
+                    if env_ is None:
+                        elts = None
+                        break
+                    elts.append(nf.canon(nf.subst(inner.elt, env_)))
+                if elts is not None:
+                    inner = ast.List(elts=elts, ctx=ast.Load())
         if not (isinstance(inner, (ast.List, ast.Tuple)) and len(inner.elts) == 3):
             raise AnalysisError('cross: expected a 3-component array display')
         for i in range(3):
@@ -1416,8 +1436,14 @@ def d4_decorator(ctx, idx, env):
                 'make_decorator returns `%s`' % (short(rets[0].value) if rets else 'nothing'), mk.loc)
         # schemas are built from has_shape(shape) for the declared shapes
         hs = lib.calls_named(mk.node, 'has_shape')
-        r.check(len(hs) >= 2, 'make_decorator: schemas', 'built from has_shape(...)',
-                'the per-argument schemas are no longer built from has_shape(shape)', mk.loc)
+        if len(hs) >= 1:
+            r.ok('make_decorator: schemas', 'built from has_shape(...)', mk.loc)
+        else:
+            deep = [c_ for h_ in _private_callees(idx, mk) for c_ in lib.calls_named(h_.node, 'has_shape')]
+            if deep:
+                r.ok('make_decorator: schemas', 'built from has_shape(...) in a helper', mk.loc)
+            else:
+                r.undecided('make_decorator: schemas', 'no call of has_shape found where the per-argument schemas are built', mk.loc)
         # --- has_shape / validators
         fi = idx.func(SDQ + '.has_shape')
         paths = nf.decision_paths(fi.node.body)
@@ -1528,6 +1554,56 @@ def d4_decorator(ctx, idx, env):
             r.undecided('math_array.is_square', 'not recognised: %s' % short(expr), sq.loc)
 
 
+def _dispatch_rows(idx, fi, call, err_name):
+    """[(caught class, replacement class)] in table order when `call` is helper(error, ...) and the helper is
+    `for caught, replacement, ... in <literal table>: if isinstance(error, caught): return replacement(...)`; else None."""
+    try:
+        targets, how = idx.resolve_call(fi, call)
+    except Exception:
+        return None
+    hs = [t for t in targets if hasattr(t, 'qualname') and t.qualname.startswith('mitxgraders.')]
+    if len(hs) != 1:
+        return None
+    h = hs[0]
+    pos = [i for i, a in enumerate(call.args) if isinstance(a, ast.Name) and a.id == err_name]
+    if len(pos) != 1 or pos[0] >= len(h.params):
+        return None
+    perr = h.params[pos[0]]
+    loops = [n for n in walk_own(h.node) if isinstance(n, ast.For)]
+    if len(loops) != 1:
+        return None
+    lp = loops[0]
+    if not (isinstance(lp.target, (ast.Tuple, ast.List)) and all(isinstance(t, ast.Name) for t in lp.target.elts)
+            and len(lp.body) == 1 and isinstance(lp.body[0], ast.If) and not lp.body[0].orelse):
+        return None
+    names = [t.id for t in lp.target.elts]
+    test = lp.body[0].test
+    if not (isinstance(test, ast.Call) and nf.callee_name(test) == 'isinstance' and len(test.args) == 2 and isinstance(test.args[0], ast.Name)
+            and test.args[0].id == perr and isinstance(test.args[1], ast.Name) and test.args[1].id in names):
+        return None
+    ci = names.index(test.args[1].id)
+    body = lp.body[0].body
+    if not (len(body) == 1 and isinstance(body[0], (ast.Return, ast.Raise))):
+        return None
+    val = body[0].value if isinstance(body[0], ast.Return) else body[0].exc
+    if not (isinstance(val, ast.Call) and isinstance(val.func, ast.Name) and val.func.id in names):
+        return None
+    ri = names.index(val.func.id)
+    table = lib.inline_locals(lp.iter, h.node)
+    if isinstance(table, ast.Name):
+        vals = h.module.assigns.get(table.id, [])
+        table = vals[0] if len(vals) == 1 else table
+    if not isinstance(table, (ast.Tuple, ast.List)):
+        return None
+    rows = []
+    for row in table.elts:
+        if not (isinstance(row, (ast.Tuple, ast.List)) and len(row.elts) == len(names)
+                and isinstance(row.elts[ci], (ast.Name, ast.Attribute)) and isinstance(row.elts[ri], (ast.Name, ast.Attribute))):
+            return None
+        rows.append((unparse(row.elts[ci]).split('.')[-1], unparse(row.elts[ri]).split('.')[-1]))
+    return rows
+
+
 def d4_evalfn(ctx, idx, env):
     r = ctx.rule('D4.EVALFN', 'eval_function validates arity for unvalidated callables before the call and recasts failures as '
                               'student-facing errors', floor=11)
@@ -1600,7 +1676,24 @@ def d4_evalfn(ctx, idx, env):
                 except AnalysisError:
                     opaque.append(h)
                     continue
+                expanded = []
                 for p in hpaths:
+                    rows = None
+                    if p.leaf.kind == 'raise' and isinstance(p.leaf.expr, ast.Call) and h.name:
+                        rows = _dispatch_rows(idx, fi, p.leaf.expr, h.name)
+                    if rows:
+                        # raise helper(error, ...) where the helper returns the replacement from an ordered (class, replacement) table
+                        for i_, (src_cls, dst_cls) in enumerate(rows):
+                            shadow = [a_ for a_, _b in rows[:i_] if a_ != src_cls and lib.exc_is_subclass(idx, mod, src_cls, a_)]
+                            leaf = nf.Leaf('raise', ast.Call(func=ast.Name(id=dst_cls if not shadow else rows[[a_ for a_, _ in rows].index(shadow[0])][1],
+                                                                           ctx=ast.Load()), args=[], keywords=[]), p.leaf.stmt)
+                            expanded.append((src_cls, nf.Path(list(p.guards), leaf, p.effects)))
+                    else:
+                        expanded.append((None, p))
+                for forced_src, p in expanded:
+                    if forced_src is not None:
+                        cases.append((forced_src, p, h, True))
+                        continue
                     pos = []
                     for g in p.guards:
                         if h.name and isinstance(g, ast.Call) and nf.callee_name(g) == 'isinstance' and len(g.args) == 2 \
@@ -1880,6 +1973,8 @@ MUTANTS = [
     Mutant('arctan2-argument-order', MF, "    return np.arctan2(y, x)", "    return np.arctan2(x, y)", 'D2'),
     Mutant('arctan2-origin-accepted', MF, "    if x == 0 and y == 0:\n        raise FunctionEvalError(\"arctan2(0, 0) is undefined\")\n\n", "", 'D2'),
     Mutant('arctan2-origin-or', MF, "    if x == 0 and y == 0:", "    if x == 0 or y == 0:", 'D2'),
+    Mutant('cross-comprehension-wrong-cycle', MF, "    return MathArray([\n        a[1]*b[2] - b[1]*a[2],\n        a[2]*b[0] - b[2]*a[0],\n        a[0]*b[1] - b[0]*a[1]\n    ])",
+           "    cyclic_pairs = ((1, 2), (0, 2), (0, 1))\n    return MathArray([a[i] * b[j] - b[i] * a[j] for i, j in cyclic_pairs])", 'D2'),
     Mutant('cross-sign', MF, "        a[2]*b[0] - b[2]*a[0],", "        a[2]*b[0] + b[2]*a[0],", 'D2'),
     Mutant('cross-index', MF, "        a[0]*b[1] - b[0]*a[1]\n", "        a[0]*b[1] - b[0]*a[2]\n", 'D2'),
     Mutant('seeded-C15g-integer-reciprocal', MF, "    return np.arccos(1. / val)", "    return np.arccos(np.reciprocal(val))", 'D2'),
@@ -2008,5 +2103,7 @@ BENIGN = [
            "def with_synonyms(table, synonyms):\n    result = dict(table)\n    result.update({synonym: table[name] for synonym, name in synonyms.items()})\n    return result\n\ndef conjugate_transpose(obj):\n    return np.conj(np.transpose(obj))\n\nARRAY_ONLY_FUNCTIONS = with_synonyms({\n    'norm': np.linalg.norm,\n    'abs': array_abs,\n    'trans': np.transpose,\n    'det': has_one_square_input('det')(np.linalg.det),\n    'trace': has_one_square_input('trace')(np.trace),\n    'ctrans': conjugate_transpose,\n    'cross': cross\n}, synonyms={'adj': 'ctrans'})"),
     Benign('C02i-corrected-shape-test-chosen-once', SD, "    def shape_validator(obj):\n        if isinstance(obj, MathArray):\n            if obj.shape == shape:\n                return obj\n            elif shape == 'square' and is_square(obj):\n                return obj\n",
            "    if shape == 'square':\n        def has_expected_shape(obj):\n            return isinstance(obj, MathArray) and is_square(obj)\n    else:\n        def has_expected_shape(obj):\n            return isinstance(obj, MathArray) and obj.shape == shape\n\n    def shape_validator(obj):\n        if has_expected_shape(obj):\n            return obj\n"),
+    Benign('cross-comprehension-over-cyclic-pairs', MF, "    return MathArray([\n        a[1]*b[2] - b[1]*a[2],\n        a[2]*b[0] - b[2]*a[0],\n        a[0]*b[1] - b[0]*a[1]\n    ])",
+           "    cyclic_pairs = ((1, 2), (2, 0), (0, 1))\n    return MathArray([a[i] * b[j] - b[i] * a[j] for i, j in cyclic_pairs])"),
     Benign('kronecker-else', MF, "    if x == y:\n        return 1\n    return 0", "    if x != y:\n        return 0\n    else:\n        return 1"),
 ]
